@@ -3,6 +3,74 @@ import Rsactor.Extracted
 namespace Rsactor.Tables
 open Rsactor Rsactor.Extracted
 
-def run (_args : List String) : IO Unit := IO.println "! tables-not-implemented"
+def showOpt : Option Nat → String
+  | some x => toString x
+  | none => "none"
+
+def parsePhase : String → Option FailurePhase
+  | "OnStart" => some .OnStart | "OnRun" => some .OnRun | "OnStop" => some .OnStop
+  | "OnRunThenOnStop" => some .OnRunThenOnStop | _ => none
+
+def parseBool : String → Option Bool | "true" => some true | "false" => some false | _ => none
+def parseOptNat (s : String) : Option (Option Nat) := if s == "none" then some none else s.toNat?.map some
+
+def parseErrorKind : String → Option ErrorKind
+  | "Send" => some .Send | "Receive" => some .Receive | "Timeout" => some .Timeout
+  | "Downcast" => some .Downcast | "Runtime" => some .Runtime | "MailboxCapacity" => some .MailboxCapacity
+  | "Join" => some .Join | _ => none
+
+def arLine (r : ActorResult Nat Nat) : String :=
+  s!"is_completed={r.is_completed} was_killed={r.was_killed} stopped_normally={r.stopped_normally} " ++
+  s!"is_startup_failed={r.is_startup_failed} is_runtime_failed={r.is_runtime_failed} " ++
+  s!"is_cleanup_failed={r.is_cleanup_failed} is_stop_failed={r.is_stop_failed} is_failed={r.is_failed} " ++
+  s!"has_actor={r.has_actor} actor={showOpt r.actor} error={showOpt r.error} " ++
+  s!"into_actor={showOpt r.into_actor} into_error={showOpt r.into_error} " ++
+  s!"tuple=({showOpt r.into_tuple.1},{showOpt r.into_tuple.2}) " ++
+  (match r.to_result with | .ok a => s!"to_result=ok:{a}" | .error e => s!"to_result=err:{e}")
+
+def parseEdges (s : String) : Option Graph :=
+  if s == "-" then some [] else
+  (s.splitOn ",").mapM fun p =>
+    match p.splitOn ":" with
+    | [k, v] => do some ((← k.toNat?), (← v.toNat?))
+    | _ => none
+
+def parseNats (s : String) : Option (List Nat) :=
+  if s == "-" then some [] else (s.splitOn ",").mapM (·.toNat?)
+
+def cfgLine (ns : List Nat) : String :=
+  let (cfg, outs) := ns.foldl (fun (acc : Option Nat × List String) n =>
+      let r := set_default_mailbox_capacity acc.1 n
+      (r.2, acc.2 ++ [match r.1 with
+        | .ok _ => "ok"
+        | .error e => (match e with
+          | .MailboxCapacity => "MailboxCapacity" | _ => "other")])) (none, [])
+  s!"{",".intercalate outs};cap={mailbox_chan_cap (spawn_capacity cfg)}"
+
+def metricsLine (ds : List Nat) : String :=
+  let m := ds.foldl Metrics.record_message ({} : Metrics)
+  let s := m.snapshot_
+  s!"{m.message_count_} {m.avg_processing_time_} {m.max_processing_time_} {m.error_count_} | " ++
+  s!"{s.message_count} {s.avg_processing_time} {s.max_processing_time} {s.error_count}"
+
+def run (args : List String) : IO Unit :=
+  let out : Option String :=
+    match args with
+    | ["ar", "C", a, k] => do
+      let r : ActorResult Nat Nat := .Completed (← a.toNat?) (← parseBool k)
+      some (arLine r)
+    | ["ar", "F", a, e, p, k] => do
+      let r : ActorResult Nat Nat := .Failed (← parseOptNat a) (← e.toNat?) (← parsePhase p) (← parseBool k)
+      some (arLine r)
+    | ["retry", v] => (parseErrorKind v).map fun e => toString e.is_retryable
+    | ["hp", a, b, g] => do some (toString (has_path (← parseEdges g) (← a.toNat?) (← b.toNat?)))
+    | ["fcp", a, b, g] => do
+      let p := format_cycle_path (← parseEdges g) (← a.toNat?) (← b.toNat?)
+      some (" ".intercalate (p.map toString))
+    | ["metrics", ds] => (parseNats ds).map metricsLine
+    | ["cfg", ns] => (parseNats ns).map cfgLine
+    | ["spawnguard", n] => n.toNat?.map fun n => toString (spawn_guard n)
+    | _ => none
+  IO.println (out.getD "! bad-tables-request")
 
 end Rsactor.Tables
